@@ -313,7 +313,7 @@ class Real:
                     if f.get("signal"):
                         verdict = "sigint"
                     elif f.get("dies"):
-                        verdict = "dies %d %d" % (f["dies"], 1 if f.get("touch") else 0)
+                        verdict = "dies %d %d %d" % (f["dies"], 1 if f.get("touch") else 0, 1 if f.get("core") else 0)
                     else:
                         verdict = "fail %d %d" % (f.get("code", 1), 1 if f.get("touch") else 0)
                 with open(os.path.join(self.ctl, "go." + ident + ".tmp"), "w") as g:
